@@ -205,8 +205,8 @@ pub fn run_prop(ctx: &Ctx) -> PropReport {
     let seed = ctx.seed;
     rep.part(|| run_random(ctx, "handshake",
         "2-3 peers (+spectators), loss up to 60% / duplication up to 50% / reordering during the handshake, explicit Drop/Dup faults on the first 14 packets of random links, forged stray sync replies (random nonce, replayed old reply, reply from a stranger) at random early ticks; oracle: per-address event grammar, at every Synchronizing{count}/Synchronized the ledger shows >= count / >= 5 DISTINCT own nonces whose reply was delivered, Running iff every endpoint synchronized, NotSynchronized before; non-trivial = a handshake packet was lost/duplicated or a stray reply was injected",
-        gen_handshake, ctx.tier.pick(1500, 8000), eval_handshake));
-    let reps = ctx.tier.pick(1u64, 4u64);
+        gen_handshake, ctx.tier.pick(6000, 30000), eval_handshake));
+    let reps = ctx.tier.pick(2u64, 6u64);
     rep.part(|| run_enum(ctx, "silence",
         "enumeration: timeouts {500/2000 (default), 100/300, 300/1000, 800/3000} x silence length = notify or timeout +- 100 ms in 10 ms steps x one/both directions x spectator x poll cadence {16,10,33 ms} x window {8,0,2}; oracle: the exact Interrupted/Resumed/Disconnected sequence and instants predicted from poll instants and deliveries, grammar; non-trivial = an interruption occurred",
         NSILENCE * reps, move |i| silence_case(i % NSILENCE, mix(seed, i / NSILENCE)), eval_silence, true));
